@@ -9,10 +9,12 @@ GRAMMAR = "varlink_parser/src/varlink_grammar.rs"
 
 # may-panic constructs in the hand-written part of the parser, each with the reason it cannot fire
 PANIC_TABLE = {
-    "varlink_parser:<IDL<'a> as std::convert::TryFrom<&'a str>>::try_from::{closure#0}:unwrap:Option::unwrap#0":
+    # key: package : kind : operation <- where the consumed value comes from (independent of the enclosing function, so that
+    # moving the statement into a helper keeps its entry)
+    'varlink_parser:assert:overflow:Sub<-arg+field:line|const':
+        'line - 1 with line >= 1 (peg-runtime adds 1 to the newline count)',
+    'varlink_parser:unwrap:Option::unwrap<-call:Iterator::nth':
         "nth(line-1) on split('\\n'): peg-runtime's line = 1 + number of b'\\n' before the error position, so at least `line` segments exist (obligation checked by C12.R2)",
-    "varlink_parser:<IDL<'a> as std::convert::TryFrom<&'a str>>::try_from::{closure#0}:assert:overflow:Sub#0":
-        "line - 1 with line >= 1 (peg-runtime adds 1 to the newline count)",
 }
 
 
@@ -169,7 +171,7 @@ def r3(cx):
         cx.saw(b)
         for ps in panic_sites(b):
             n += 1
-            key = "%s:%s:%s" % (b.pkg, b.path, ps["key"])
+            key = "%s:%s" % (b.pkg, ps["skey"])
             seen.add(key)
             if key in PANIC_TABLE:
                 cx.ok("C12.R3", key, "%s %s" % (ps["sp"], b.path), "table: " + PANIC_TABLE[key])
